@@ -128,6 +128,11 @@ class Ev:
                     return sym('2^(%s)' % show(b))
             if op in ('Div', 'Rem'):
                 a, b = self.ev(fn, n['l'], env, depth), self.ev(fn, n['r'], env, depth)
+                if op == 'Div' and b:
+                    # the ceiling-division idiom (x + n - 1) / n is the same function as x.div_ceil(n)
+                    x = add(add(a, b, -1), const(1))
+                    if all(c > 0 for c in x.values()) and all(a.get(m, 0) >= c for m, c in b.items() if m != ()) and x != a:
+                        return sym('div_ceil(%s, %s)' % (show(x), show(b)))
                 return sym('(%s)%s(%s)' % (show(a), '/' if op == 'Div' else '%', show(b)))
             raise Unknown('operator ' + op)
         if k == 'Def':
@@ -159,6 +164,8 @@ class Ev:
                 bt = ty_adt(fn.ty(r['e']) or '')
                 if bt:
                     return sym('len(%s.%s)' % (bt, r['n']))
+            if r.get('k') == 'Local':
+                return sym('len(@%s)' % r.get('n'))
             raise Unknown('len of non-field')
         if k in ('MCall', 'Call'):
             nm0 = n.get('n') if k == 'MCall' else parse_path(callee(n) or '')[1]
